@@ -168,7 +168,14 @@ pub fn gen_case(prop: &str, tier: Tier, seed: u64, idx: u64) -> Option<Case> {
         }
         "C07" => return Some(mon_c07_case(r)),
         "C08" => {
-            let o = GenOpts { hostile_pct: 5, reorder_pct: 35, audio_pct: 65, meta_pct: 70, encode_pct: 5, consuming: false, ..Default::default() };
+            let mut o = GenOpts { hostile_pct: 5, reorder_pct: 35, audio_pct: 65, meta_pct: 70, encode_pct: 5, consuming: false, ..Default::default() };
+            // some recordings with frames beyond 64 KiB, some long enough (and with enough equal
+            // audio timestamps) for sorting / batching shortcuts to matter
+            o.big_frames = r.chance(1, 8);
+            if r.chance(1, 10) {
+                o.max_video = 80;
+                o.max_audio = 160;
+            }
             let mut h = gen_history(r, &o);
             h.cfg.fast_start = Some(true);
             hist_case(h)
@@ -320,7 +327,13 @@ pub fn eval_case(prop: &str, case: &Case, obs: &mut Obs) -> Vec<Violation> {
             } else if !matches!(fault, crate::sink::Fault::None) {
                 obs.count("runs_with_short_writing_sink", 1);
             }
-            let (ex, sink) = crate::exec::run_fault(h, &ExecOpts::default(), fault);
+            // every fourth run copies each frame into one reused caller-side buffer first
+            let (ex, sink) = if hv % 4 == 1 {
+                obs.count("runs_with_a_reused_frame_buffer", 1);
+                crate::exec::with_reused_buffer(|| crate::exec::run_fault(h, &ExecOpts::default(), fault))
+            } else {
+                crate::exec::run_fault(h, &ExecOpts::default(), fault)
+            };
             if ex.any_panic() {
                 obs.inconclusive += 1;
                 obs.count("histories_ending_in_panic(C12's business)", 1);
